@@ -16,16 +16,17 @@ if [ -f $DEMO ]; then (cd $SCR && timeout 600 bash $DEMO >/tmp/seedv/$NAME.befor
 (cd $SCR && git apply $OUT/patch.diff) || { echo "patch does not apply"; git -C /repo worktree remove --force $SCR; exit 2; }
 (cd $SCR && go build ./... && go test -vet=off -count=1 ./... >/tmp/seedv/$NAME.tests.log 2>&1); tests=$?
 if [ -f $DEMO ]; then (cd $SCR && timeout 600 bash $DEMO >/tmp/seedv/$NAME.after.log 2>&1); res_after=$?; fi
-git -C /repo worktree remove --force $SCR
 echo "demo before=$res_before (want 0)  tests=$tests (want 0)  demo after=$res_after (want 1)"
-# run our checks on /repo with the change
-git -C /repo apply $OUT/patch.diff || { echo "cannot apply to /repo"; exit 2; }
+# run our checks with the change applied: on /repo itself (git apply ... git checkout -- .) unless
+# SEED_SCRATCH=1, in which case the scratch worktree (which has the change applied) is checked
+# through VERIF_REPO, so that /repo stays untouched while other runs use it
 declare -A RES
+if [ "${SEED_SCRATCH:-0}" = 1 ]; then RP=$SCR; else git -C /repo worktree remove --force $SCR; git -C /repo apply $OUT/patch.diff || { echo "cannot apply to /repo"; exit 2; }; RP=/repo; fi
 for p in $PROP $EXTRA; do
-  (cd /verif && timeout 3000 ./check $p > /tmp/seedv/$NAME.check_$p.log 2>&1); RES[$p]=$?
+  (cd /verif && VERIF_REPO=$RP timeout 3000 ./check $p > /tmp/seedv/$NAME.check_$p.log 2>&1); RES[$p]=$?
   echo "check $p -> exit ${RES[$p]}: $(grep -c '^VIOLATION' /tmp/seedv/$NAME.check_$p.log) violation line(s); $(tail -1 /tmp/seedv/$NAME.check_$p.log)"
 done
-git -C /repo checkout -- . ; git -C /repo status --short | head -3
+if [ "${SEED_SCRATCH:-0}" = 1 ]; then git -C /repo worktree remove --force $SCR; else git -C /repo checkout -- . ; git -C /repo status --short | head -3; fi
 D=/verif/seeded/$NAME; mkdir -p $D
 cp $OUT/patch.diff $D/; [ -f $OUT/demo.sh ] && cp $OUT/demo.sh $D/; [ -f $OUT/meta.txt ] && cp $OUT/meta.txt $D/needs.txt
 python3 - <<PY
